@@ -60,12 +60,14 @@ const (
 	lfSpecialFloat  // f:NaN, f:Inf, f:-Inf
 	lfRangeComma    // f:["a,b" TO "c"]  (a string bound containing a comma)
 	lfEqSpecial     // f:"it's, x"  (quote, comma, space in an equality value)
+	lfEmptyQuoted   // f:""
+	lfNonASCII      // f:"é" style two-byte UTF-8 text
 	lfAllCount
 )
 
 var leafNames = []string{"bare", "eq-str", "eq-int", "bare-int", "gt", "ge", "lt", "le", "range-incl", "range-excl", "range-lo", "range-hi",
 	"range-str", "list", "wild", "regexp", "quoted", "float", "bare-wild", "", "range-excl-str", "range-str-lo", "range-str-hi", "range-all",
-	"range-excl-lo", "range-excl-hi", "range-float", "range-float-excl", "list-int", "wild-mid", "regexp-short", "special-float", "range-str-comma", "eq-special"}
+	"range-excl-lo", "range-excl-hi", "range-float", "range-float-excl", "list-int", "wild-mid", "regexp-short", "special-float", "range-str-comma", "eq-special", "empty-quoted", "non-ascii"}
 
 // concreteFields makes field names the fixed sequence p, q, r, ... (one per leaf) instead of
 // symbolic bytes; used where rows have to be looked up by name.
@@ -176,7 +178,15 @@ func genLeaf(forms []int) *node {
 		lf.s2 = string([]byte{'x', holeByte("str", strRest)})
 	case lfEqSpecial:
 		lf.field = holeField()
-		lf.s1 = string([]byte{holeByte("str", strRest), '\'', ',', ' ', holeByte("str", strRest+"';-/*")})
+		lf.s1 = string([]byte{holeByte("str", strRest), '\'', ',', ' ', holeByte("str", strRest+"';-/")})
+	case lfEmptyQuoted:
+		lf.field = holeField()
+	case lfNonASCII:
+		lf.field = holeField()
+		b0 := holeByte("u0", "\xc3\xc4\xd0\xd7")
+		b1 := rtByte("u1")
+		rtAssume(rtAnd(b1 >= 0x80, b1 <= 0xbf))
+		lf.s1 = string([]byte{'x', b0, b1})
 	case lfSpecialFloat:
 		lf.field = holeField()
 		lf.s1 = []string{"NaN", "Inf", "infinity"}[rtChoose("special", 3)]
@@ -313,8 +323,10 @@ func printLeaf(lf *leaf, o *printOpts) string {
 		return lf.field + ":" + lf.s1
 	case lfRangeComma:
 		return lf.field + ":[\"" + lf.s1 + "\"" + sp(o) + kw("TO", o) + sp(o) + "\"" + lf.s2 + "\"]"
-	case lfEqSpecial:
+	case lfEqSpecial, lfNonASCII:
 		return lf.field + ":\"" + lf.s1 + "\""
+	case lfEmptyQuoted:
+		return lf.field + ":\"\""
 	}
 	return "?"
 }
@@ -444,7 +456,7 @@ func matchLeaf(e *expr.Expression, lf *leaf, df string) bool {
 		return litKind(e, expr.Wild, lf.s1)
 	case lfEqStr:
 		return e.Op == expr.Equals && rtAnd(litColumn(e.Left, lf.field), litString(e.Right, lf.s1))
-	case lfQuoted:
+	case lfQuoted, lfEqSpecial, lfNonASCII, lfEmptyQuoted:
 		return e.Op == expr.Equals && rtAnd(litColumn(e.Left, lf.field), litString(e.Right, lf.s1))
 	case lfEqInt:
 		return e.Op == expr.Equals && rtAnd(litColumn(e.Left, lf.field), litInt(e.Right, lf.i1))
@@ -500,6 +512,19 @@ func matchLeaf(e *expr.Expression, lf *leaf, df string) bool {
 			return false
 		}
 		return rtAnd(litColumn(e.Left, lf.field), rtAnd(litString(items[0], lf.s1), litString(items[1], lf.s2)))
+	case lfListInt:
+		if e.Op != expr.In {
+			return false
+		}
+		l := asExpr(e.Right)
+		if l == nil || l.Op != expr.List {
+			return false
+		}
+		items, ok := l.Left.([]*expr.Expression)
+		if !ok || len(items) != 2 {
+			return false
+		}
+		return rtAnd(litColumn(e.Left, lf.field), rtAnd(litInt(items[0], lf.i1), litInt(items[1], lf.i2)))
 	case lfWild:
 		return e.Op == expr.Like && rtAnd(litColumn(e.Left, lf.field), litKind(e.Right, expr.Wild, lf.s1))
 	case lfRegexp:
